@@ -265,7 +265,9 @@ pub fn run_process<T: Send + 'static>(
     ctx.capture_reads = spec.capture_reads;
     // every second simulated process sees a clock that stands still (a function of its
     // entropy seed, so replay files need nothing extra)
-    ctx.frozen_clock = spec.entropy % 2 == 0;
+    // (three in eight stand still, two run backwards, one is skewed per file, two are real)
+    ctx.clock_mode = match spec.entropy % 8 { 0 | 2 | 4 => 1, 6 | 7 => 2, 3 => 3, _ => 0 };
+    ctx.clock_seed = spec.entropy;
     let abandoned = ctx.abandoned.clone();
     let cwd = spec.cwd.clone();
     let gate_for_exit = gate.clone();
